@@ -272,7 +272,18 @@ func genHistory(r *rand.Rand, maxLen int) History {
 		origin = "reversed"
 	}
 	if r.Intn(5) < 2 && len(mods) > 0 {
-		v := revisionVariant(r, mods[r.Intn(len(mods))])
+		// another revision of a module or - one time in three when there is one - of a submodule
+		// (the superseded revision is then reached by no include any more)
+		cands := mods
+		if len(set.Mods) > len(mods) && r.Intn(3) == 0 {
+			cands = nil
+			for _, m := range set.Mods {
+				if m.Sub {
+					cands = append(cands, m)
+				}
+			}
+		}
+		v := revisionVariant(r, cands[r.Intn(len(cands))])
 		pos := r.Intn(len(items) + 1)
 		if r.Intn(3) != 0 {
 			pos = len(items) // usually after everything else (and after a first Process)
@@ -578,6 +589,119 @@ func genTypeHistory(r *rand.Rand, maxLen int) History {
 	for len(items)+len(late)+1 > maxLen {
 		items = items[1:]
 		origin += "+truncated"
+	}
+	return buildOps(r, items, maxLen, origin)
+}
+
+// genSubRevHistory builds a history around a submodule revision that is superseded after a
+// processing run: module m includes s; the first revision of s has an include and / or an import of
+// its own and USES what they bring (a grouping, a typedef, an identity of submodule t; a grouping
+// and a typedef of module lib); after a Process a newer revision of s arrives (usually without
+// those statements), so that nothing reaches the old revision - and sometimes t - any more.
+// A fresh set never links the old revision; a set that keeps links of an earlier run does.
+func genSubRevHistory(r *rand.Rand, maxLen int) History {
+	some := func() bool { return r.Intn(3) != 0 }
+	str := func() *gen.Node { return nd("type", "string") }
+	m := &gen.Module{Name: "m", Prefix: "m", Namespace: "urn:m", ImportPrefix: map[*gen.Module]string{}, Body: nd("module", "m")}
+	lib := &gen.Module{Name: "lib", Prefix: "lib", Namespace: "urn:lib", ImportPrefix: map[*gen.Module]string{}, Body: nd("module", "lib",
+		nd("typedef", "lt", nd("type", "int8", nd("range", "1..9"))),
+		nd("grouping", "lg", nd("leaf", "lgl", nd("type", "lt"))),
+		nd("identity", "li"))}
+	t := &gen.Module{Name: "t", Prefix: "m", Namespace: "urn:m", Sub: true, Owner: m, ImportPrefix: map[*gen.Module]string{}, Body: nd("submodule", "t",
+		nd("grouping", "tg", nd("leaf", "x", str())),
+		nd("typedef", "tt", nd("type", "uint32")),
+		nd("identity", "ti"))}
+	if some() {
+		t.Body.Kids = append(t.Body.Kids, nd("container", "from-t", nd("leaf", "tl", nd("type", "tt"))))
+	}
+	useInc := r.Intn(5) != 0
+	useImp := !useInc || r.Intn(2) == 0
+	sA := &gen.Module{Name: "s", Prefix: "m", Namespace: "urn:m", Sub: true, Owner: m, ImportPrefix: map[*gen.Module]string{}, Body: nd("submodule", "s")}
+	if r.Intn(4) != 0 {
+		sA.Revisions = []string{"2020-01-01"}
+	}
+	fromS := nd("container", "from-s")
+	if useInc {
+		sA.Includes = append(sA.Includes, t)
+		fromS.Kids = append(fromS.Kids, nd("uses", "tg"))
+		if some() {
+			sA.Body.Kids = append(sA.Body.Kids, nd("leaf", "st", nd("type", "tt")))
+		}
+		if some() {
+			sA.Body.Kids = append(sA.Body.Kids, nd("identity", "si", nd("base", "ti")),
+				nd("leaf", "sir", nd("type", "identityref", nd("base", "si"))))
+		}
+	}
+	if useImp {
+		sA.Imports = append(sA.Imports, lib)
+		sA.ImportPrefix[lib] = "lib"
+		if some() || !useInc {
+			fromS.Kids = append(fromS.Kids, nd("container", "viaimport", nd("uses", "lib:lg")))
+		}
+		if some() {
+			sA.Body.Kids = append(sA.Body.Kids, nd("leaf", "slt", nd("type", "lib:lt")))
+		}
+		if some() {
+			sA.Body.Kids = append(sA.Body.Kids, nd("identity", "sli", nd("base", "lib:li")))
+		}
+	}
+	sA.Body.Kids = append(sA.Body.Kids, fromS)
+	// the owner: includes s, sometimes t as well (then t stays reachable), a body of its own
+	m.Includes = append(m.Includes, sA)
+	if useInc && r.Intn(3) == 0 {
+		m.Includes = append(m.Includes, t)
+	}
+	m.Body.Kids = append(m.Body.Kids, nd("container", "top", nd("leaf", "a", str())))
+	if some() {
+		m.Body.Kids = append(m.Body.Kids, nd("augment", "/m:from-s", nd("leaf", "auga", str())))
+	}
+	// the later revision of s
+	rev := "2021-01-01"
+	if len(sA.Revisions) > 0 && r.Intn(5) == 0 {
+		rev = "2019-01-01" // an older one: the bare name keeps denoting the first (control)
+	}
+	sB := &gen.Module{Name: "s", Prefix: "m", Namespace: "urn:m", Sub: true, Owner: m, Revisions: []string{rev},
+		ImportPrefix: map[*gen.Module]string{}, Body: nd("submodule", "s")}
+	switch r.Intn(4) {
+	case 0:
+		// still includes t and uses it
+		if useInc {
+			sB.Includes = append(sB.Includes, t)
+			sB.Body.Kids = append(sB.Body.Kids, nd("container", "from-s", nd("uses", "tg"), nd("leaf", "y", str())))
+			break
+		}
+		fallthrough
+	default:
+		sB.Body.Kids = append(sB.Body.Kids, nd("container", "from-s", nd("leaf", "y", str())))
+	}
+	sAName := "s.yang"
+	if len(sA.Revisions) > 0 {
+		sAName = "s@" + sA.Revisions[0] + ".yang"
+	}
+	first := []item{{name: "m.yang", text: m.Text(), mod: m}, {name: sAName, text: sA.Text(), mod: sA}}
+	if useInc {
+		first = append(first, item{name: "t.yang", text: t.Text(), mod: t})
+	}
+	if useImp {
+		first = append(first, item{name: "lib.yang", text: lib.Text(), mod: lib})
+	}
+	if r.Intn(2) == 0 {
+		r.Shuffle(len(first), func(i, j int) { first[i], first[j] = first[j], first[i] })
+	}
+	origin := "submodule-revision"
+	if useInc {
+		origin += "+own-include"
+	}
+	if useImp {
+		origin += "+own-import"
+	}
+	items := append(first, item{name: "s@" + rev + ".yang", text: sB.Text(), mod: sB, variant: true, pre: "process"})
+	if maxLen >= 12 && r.Intn(3) == 0 {
+		// a third revision after another run
+		sC := *sB
+		sC.Revisions = []string{"2022-02-02"}
+		sC.Body = nd("submodule", "s", nd("container", "from-s", nd("leaf", "z", str())))
+		items = append(items, item{name: "s@2022-02-02.yang", text: sC.Text(), mod: &sC, variant: true, pre: "process"})
 	}
 	return buildOps(r, items, maxLen, origin)
 }
